@@ -23,7 +23,9 @@ def run(idx, rep, tier):
     simplex.r_bitmap(idx, rep)
     simplex.r_maskpoint(idx, rep)
     simplex.r_planes(idx, rep)
+    simplex.r_windingdecision(idx, rep)
     simplex.r_solverdispatch(idx, rep)
+    simplex.r_lineweights(idx, rep)
     simplex.r_weightrole(idx, rep)
     buffers.r_compact(idx, rep, modules={J}, floor=2)
     loops.r_loop(idx, rep, [J], floor=2)
